@@ -175,6 +175,21 @@ def interface_keywords(irj):
     return "+".join(sorted({k for t in texts for k in G.keywords_in(t)}))
 
 
+def source_kind(d):
+    """for a str default: is it the source of a number literal (the IR convention writes a return entry's default as source text)"""
+    if not d or d.get("t") != "str":
+        return "n/a"
+    try:
+        v = ast.literal_eval(d["v"].strip("`"))
+    except Exception:  # noqa
+        return "other"
+    return "number" if isinstance(v, (int, float, complex)) and not isinstance(v, bool) else "other"
+
+
+def _inf_nan(d):
+    return bool(d) and d.get("t") in ("float", "complex") and any(w in d["v"] for w in ("inf", "nan"))
+
+
 def emitted_docstring(real):
     """the docstring text of the re-read emitted node (None when there is none)"""
     for st in (real.get("reparsed") or {}).get("body", [])[:1]:
@@ -254,7 +269,8 @@ def oracle(fmt, cfg, irj, got_irj, issues=(), in_domain=False, doc_text=None):
         for field, i in (("typ", 1), ("default", 2), ("doc", 3)):
             if e[i] != g[i]:
                 sig = dict(base, entry=entry, field=field, announcement=shape, entry_keywords="+".join(G.keywords_in(sp.get("doc"))),
-                           quote=G.quote_shape(sp["default"]["v"]) if (sp.get("default") or {}).get("t") == "str" else "none", typ_kind=typ_kind(sp.get("typ")), has_bracket="[" in (sp.get("typ") or ""),
+                           quote=G.quote_shape(sp["default"]["v"]) if (sp.get("default") or {}).get("t") == "str" else "none",
+                           num=G.num_shape_json(sp.get("default")), source_kind=source_kind(sp.get("default")), typ_kind=typ_kind(sp.get("typ")), has_bracket="[" in (sp.get("typ") or ""),
                            default_kind=default_kind(sp.get("default")), to=to_class(field, e[i], g[i], sp), **default_flags(sp.get("default")), **layer(e[0], field))
                 out.append((sig, "%s %s: %s came back as %r, expected %r (typ %r, default %s)" % (entry, e[0], field, g[i], e[i], sp.get("typ"), tv(sp.get("default")))))
     return out
@@ -297,6 +313,8 @@ def _real_case(job):
     fmt, cfg, ir, docreq = job
     out = {"notes": []}
     names = list(ir["params"]) + ["return_type", "argument_parser"]
+    if any(isinstance(p.get("default"), (float, complex)) and p["default"] != p["default"] for p in ir["params"].values()):
+        out["notes"].append("nan default: ast.unparse writes it as the BinOp `1e309 - 1e309` (outside the model)")
     if fmt == "argparse":
         from cdd.shared.pure_utils import fill
 
@@ -499,6 +517,8 @@ def evaluate(chk, rec, sig_counts, witness_of=None):
         sig = {"format": f, "style": c["style"], "style_group": "rest" if c["style"] == "rest" else "google/numpydoc", "edd": c["edd"],
                "ta": c.get("type_annotations"), "kw": c.get("kw_only"), "in_domain": in_dom, "field": "raises", "stage": stage, "exc": exc,
                "keywords": interface_keywords(rec["irj"]),
+               "has_inf_nan": any(_inf_nan(p.get("default")) for _, p in rec["irj"]["params"]),
+               "nums": "+".join(sorted({G.num_shape_json(p.get("default")) for _, p in rec["irj"]["params"]} - {"none", "plain"})),
                "has_quote_default": any((p.get("default") or {}).get("t") == "str" and G.quote_shape(p["default"]["v"]) != "none" for _, p in rec["irj"]["params"]),
                "quotes": "+".join(sorted({G.quote_shape(p["default"]["v"]) for _, p in rec["irj"]["params"] if (p.get("default") or {}).get("t") == "str"} - {"none"})),
                "layer": "docstring" if doc_caused else "format", "return_default_kind": default_kind(rp.get("default")),
@@ -664,6 +684,9 @@ WITNESSES = {
     "C02-doc-numpydoc-returns-colon-raises": ("class", {"style": "numpydoc", "edd": False},
                                               dict(_ir([("x1", {"doc": "learning rate used", "typ": "float"})], {"doc": "weight decay factor", "typ": "Optional[str]", "default": _v("str", "(a, b)")}),
                                                    doc="Like Returns: of the caller\n\nLonger description here.")),
+    "C02-nan-default-binop": ("class", REST, _ir([("x", {"doc": "a value", "typ": "float", "default": _v("float", "nan")})])),
+    "C02-doc-inf-nan-default-raises": ("class", {"style": "google", "edd": True}, _ir([("x", {"doc": "a value", "typ": "float", "default": _v("float", "inf")})])),
+    "C02-return-number-source-evaluated": ("function", FN, _ir([], {"doc": "the result", "typ": "List[float]", "default": _v("str", "1e+20")})),
     "C02-doc-google-numpydoc-argparse-return": ("argparse", {"style": "google", "edd": False}, _ir([], {"doc": "the result", "typ": "int", "default": _v("str", "K")})),
 }
 
@@ -698,6 +721,11 @@ CORNERS = [
     dict(_ir([("n", {"doc": "Same as Args: of the caller", "typ": "int"})], {"doc": "Like Returns: of the caller", "typ": "List[int]"}), doc="Summary line."),
     dict(_ir([("n", {"doc": "Kept as is, e.g. Raises nothing", "typ": "int"}), ("m", {"doc": "a count", "typ": "int", "default": _v("int", "5")})],
              {"doc": "the result", "typ": "List[int]"}), doc="Does the thing, e.g. Raises nothing"),
+    # floats whose repr has an exponent with a plus sign, not last and last (the ReST reader is position dependent); with Google via the styles
+    dict(_ir([("big", {"doc": "the upper bound", "typ": "float", "default": _v("float", "1e+20")}), ("n", {"doc": "a count", "typ": "int", "default": _v("int", "5")}),
+              ("cap", {"doc": "the other bound", "typ": "float", "default": _v("float", "1e+20")})]), doc="Summary line."),
+    dict(_ir([("scale", {"doc": "the scale used", "typ": "float", "default": _v("float", "2.5e+16")}), ("tiny", {"doc": "the step used", "typ": "Optional[float]", "default": _v("float", "5e-324")}),
+              ("huge", {"doc": "the limit used", "typ": "int", "default": _v("int", str(10 ** 30))})], {"doc": "the result", "typ": "List[float]", "default": _v("str", "K")}), doc=""),
     dict(_ir([("flag", {"doc": "Kept between runs,", "typ": "bool", "default": _v("bool", "False")})],
              {"doc": "One of: alpha, beta; or (gamma)", "typ": "List[int]", "default": _v("str", "K")}, typ="self"), doc="Summary line."),
 ]
@@ -719,7 +747,8 @@ THEOREMS = ["C02.C02_class", "C02.C02_pydantic", "C02.C02_function", "C02.C02_ar
             "C02.function_return_typ_dropped", "C02.C02_full_fails_function_return_typ_dropped",
             "C02.function_return_default_code_quoted", "C02.C02_full_fails_function_return_default_code_quoted",
             "C02.argparse_return_code_quoted", "C02.C02_full_fails_argparse_return_code_quoted",
-            "C02.class_same_quoted_default_unwrapped", "C02.C02_full_fails_same_quoted_default_unwrapped", "C02.class_mixed_quote_default_kept"]
+            "C02.class_same_quoted_default_unwrapped", "C02.C02_full_fails_same_quoted_default_unwrapped", "C02.class_mixed_quote_default_kept",
+            "C02.function_exponent_float_kept"]
 
 
 def run(chk: core.Check) -> int:
@@ -860,7 +889,8 @@ def run(chk: core.Check) -> int:
     kirs = G.gen_keyword_irs(rng, 54 if chk.quick else 405)
     extra = collections.Counter()
     n_extra_thm = 0
-    for label, irs_ in (("quotes", qirs), ("keywords", kirs)):
+    nirs = G.gen_numeric_irs(rng, 44 if chk.quick else 660)
+    for label, irs_ in (("quotes", qirs), ("keywords", kirs), ("numeric", nirs)):
         xcases = [(f, c, ir) for ir in irs_ for f in R.FORMATS for c in CFGS[f]]
         for i in range(0, len(xcases), B):
             for rec in run_cases(chk, xcases[i:i + B], label):
@@ -869,19 +899,26 @@ def run(chk: core.Check) -> int:
                 ok_thm = theorem_instance(chk, rec, claimed)
                 n_extra_thm += ok_thm
                 chk.count((label, rec["fmt"], json.dumps(rec["cfg"], sort_keys=True), json.dumps(rec["irj"], sort_keys=True)), ok_thm)
-                if label == "quotes":
+                if label == "numeric":
+                    ps = rec["irj"]["params"]
+                    for pos, (_, p) in enumerate(ps):
+                        place = "only" if len(ps) == 1 else "first" if pos == 0 else "last" if pos == len(ps) - 1 else "middle"
+                        extra[("numeric", "function" if rec["fmt"] == "function" else "class/pydantic/argparse", G.num_shape_json(p.get("default")), place,
+                               "theorem applies" if ok_thm else "outside D02 / hypotheses")] += 1
+                elif label == "quotes":
                     for _, p in rec["irj"]["params"]:
                         if (p.get("default") or {}).get("t") == "str":
                             extra[("quotes", rec["fmt"], G.quote_shape(p["default"]["v"]), "theorem applies" if ok_thm else "outside D02 / hypotheses")] += 1
                 else:
                     extra[("keywords", rec["fmt"], rec["cfg"]["style"], interface_keywords(rec["irj"]) or "control", "theorem applies" if ok_thm else "outside D02 / hypotheses")] += 1
-    chk.coverage["quote_and_keyword_streams"] = {"quote interfaces": len(qirs), "keyword interfaces": len(kirs), "cases": (len(qirs) + len(kirs)) * 42,
+    chk.coverage["quote_and_keyword_streams"] = {"quote interfaces": len(qirs), "keyword interfaces": len(kirs), "numeric interfaces": len(nirs),
+                                                 "cases": (len(qirs) + len(kirs) + len(nirs)) * 42,
                                                  "cases inside D02 with the docstring-layer hypotheses true": n_extra_thm,
                                                  "distribution": {" | ".join(k): v for k, v in sorted(extra.items())}}
     n_dis = sum(v for k, v in stats.items() if k[-1] == "DISAGREE")
     n_agree = sum(v for k, v in stats.items() if k[-1] == "agree" or k[-1].startswith("both raise") or k[-1].startswith("docstring layer raises"))
-    chk.oblige("correspondence: real emitters/parsers = Iface.emit / Top.reparse / Iface.parse on %d generated cases + %d hand-written sources + %d trigger cases + %d wrap-boundary cases + %d separator cases + %d quote / keyword cases + %d witnesses "
-               "(emitted AST, re-parsed AST, parsed IR)" % (n_main, len(srcs), len(tcases), len(wcases), len(pcases), (len(qirs) + len(kirs)) * 42, len(WITNESSES)), "correspondence", n_dis == 0,
+    chk.oblige("correspondence: real emitters/parsers = Iface.emit / Top.reparse / Iface.parse on %d generated cases + %d hand-written sources + %d trigger cases + %d wrap-boundary cases + %d separator cases + %d quote / keyword / numeric cases + %d witnesses "
+               "(emitted AST, re-parsed AST, parsed IR)" % (n_main, len(srcs), len(tcases), len(wcases), len(pcases), (len(qirs) + len(kirs) + len(nirs)) * 42, len(WITNESSES)), "correspondence", n_dis == 0,
                "%d disagreements; %d stage agreements; %d cases fully claimed by the model" % (n_dis, n_agree, n_claimed))
     chk.coverage["correspondence_outcomes"] = {" | ".join(k): v for k, v in sorted(stats.items())}
     chk.coverage["input_distribution"] = {" | ".join(k): v for k, v in sorted(cov.items())}
@@ -895,7 +932,8 @@ def run(chk: core.Check) -> int:
                       "hypotheses true on the real layer and every stage claimed by the model; plus a wrap-boundary stream (2-4 parameters with defaults, description lengths 52-99 so that "
                       "textwrap.fill breaks the line at every position of '. Defaults to <value>') through the same real pipeline and oracle; plus a separator stream (descriptions of parameters and return entries with commas, colons, "
                       "semicolons, ' - ', parentheses, '->', '=', quotes, trailing comma; fixed corner interfaces on every seed); a quote stream (string defaults with quote characters in every position) and a keyword stream "
-                      "(descriptions mentioning Args: / Returns: / Raises: / Kwargs: / Parameters / underlined headings / :param / :return: as prose, with colon-less controls)")
+                      "(descriptions mentioning Args: / Returns: / Raises: / Kwargs: / Parameters / underlined headings / :param / :return: as prose, with colon-less controls); a numeric stream (exponent reprs with + and -, many digits, inf / nan, -0.0, 10**30, complex with exponents, "
+                      "each kind in first / middle / last position)")
 
 
 def prim_correspondence(chk, rng):
